@@ -25,7 +25,7 @@ META = {
                    "conditioned on anything else (e.g. on a comparison of old and new values) does not count. Plus: get/set resolve "
                    "rows by the same computation; the name::count<<offset parser's sign roles; negative counts shifted by the "
                    "occurrence count (and nothing else); absent -> None -> KeyError; all entry points end in the same resolver; the "
-                   "cache is only read through that resolver; shape of the cache fill.",
+                   "cache is only read through that resolver; shape of the cache fill. The unique labels go into an object array; (name,) / (name, count) tuples rely on defaults 0; a cache miss (None) never reaches a column subscript.",
     "decides": "coherence of the name cache under every API write (invalidate-on-write), agreement of the resolvers",
     "not_decided": "that the cache numbers occurrences correctly for all data (loop invariant over data) beyond the constants checked",
     "assumptions": ["numpy column arrays are mutated only through the Table API (excluded: writes to t._data[...] arrays from outside)"],
